@@ -391,10 +391,10 @@ class SampledDimension(Dimension):
                 position, offset, mode.name
             ))
 
-        if np.isclose(scaled_position, 0) and mode == IndexMode.Less:
+        if np.isclose(scaled_position, 0, rtol=1e-12, atol=1e-8) and mode == IndexMode.Less:
             raise IndexError("Position {} is out of bounds for SampledDimension with mode {}".format(position, mode.name))
         index = int(np.round(scaled_position))
-        if np.isclose(scaled_position, index):
+        if np.isclose(scaled_position, index, rtol=1e-12, atol=1e-8):
             # exact position
             if mode in (IndexMode.GreaterOrEqual, IndexMode.LessOrEqual):
                 # exact position and *Equal mode
@@ -818,7 +818,7 @@ class SetDimension(Dimension):
             ))
 
         index = int(np.floor(position))
-        if np.isclose(position, index):
+        if np.isclose(position, index, rtol=1e-12, atol=1e-8):
             # exact position
             if mode in (IndexMode.GreaterOrEqual, IndexMode.LessOrEqual):
                 # exact position and *Equal mode
